@@ -17,7 +17,8 @@ from .. import stats as st
 from .. import disthist as dh
 from ..dist import memoise_lut
 
-PRES = [('uint8', 0, 1.0), ('int16', -2, 1.0), ('float32', -2, 0.25), ('float64', 0, 0.5)]
+# the last three ride on offsets whose squares do not fit the traces' own integer type (60^2 > 255, 200^2 > 32767, 12^2 > 127)
+PRES = [('uint8', 0, 1.0), ('int16', -2, 1.0), ('float32', -2, 0.25), ('float64', 0, 0.5), ('uint8', 60, 1.0), ('int16', 200, 1.0), ('int8', 12, 1.0)]
 CLS = {'f': 'ANOVADistinguisher', 'nicv': 'NICVDistinguisher', 'snr': 'SNRDistinguisher'}
 
 
@@ -76,14 +77,14 @@ def run(chk):
             dt, sh, sc = PRES[i % len(PRES)]
             t = ((np.array([[p[0]] for p in ps], dtype='float64') + sh) * sc).astype(dt)
             d = np.array([[p[1]] for p in ps], dtype=['uint8', 'int16', 'uint16', 'int32'][(i // 4) % 4])
-            kappa = st.class_kappa(ps, cl)
+            kappa = st.class_kappa([(p[0] + sh, p[1]) for p in ps] if sh > 0 else ps, cl)
             for metric in ('f', 'nicv', 'snr'):
                 for prec in ('float32', 'float64'):
                     got = run_obj(CLS[metric], prec, t, d, cl, split=(i % 3 == 0))
                     if got.shape != (1, 1):
                         chk.violation(f'{CLS[metric]}:result layout', {'property': 'C04', 'ps': ps, 'shape': list(got.shape)}, f'shape {got.shape}')
                         continue
-                    check_entry(chk, metric, prec, got[0, 0], e[metric], kappa, {'ps': ps, 'classes': cl, 'trace_dtype': dt, 'key': (tuple(cl), i)})
+                    check_entry(chk, metric, prec, got[0, 0], e[metric], kappa, {'ps': ps, 'classes': cl, 'trace_dtype': dt, 'pres': [dt, sh, sc], 'split': i % 3 == 0, 'key': (tuple(cl), i)})
             if i % 1499 == 0:
                 chk.sample({'observations': ps, 'classes': cl, 'F': e['f'], 'NICV': e['nicv'], 'SNR': e['snr']})
             chk.traces_validated += 1
@@ -136,8 +137,8 @@ def bigger(chk):
                 for j, r in enumerate(rs[metric]):
                     w, s = j // c['S'], j % c['S']
                     ps = [(rr['t'][s], rr['d'][w]) for rr in rows]
-                    kappa = st.class_kappa(ps, c['classes'])
-                    check_entry(chk, metric, prec, got[w, s], r, kappa, {'case': case, 'auto_first_batch_max': autos[ci], 'entry': [w, s], 'trace_dtype': dt, 'key': ('B', ci, j)})
+                    kappa = st.class_kappa([(x + sh, v) for x, v in ps] if sh > 0 else ps, c['classes'])
+                    check_entry(chk, metric, prec, got[w, s], r, kappa, {'case': case, 'auto_first_batch_max': autos[ci], 'entry': [w, s], 'trace_dtype': dt, 'pres': [dt, sh, sc], 'split': bool(ci % 2 == 1 and autos[ci] is None), 'key': ('B', ci, j)})
         chk.traces_validated += 1
     chk.sample({'unbalanced_case': {'classes': cases[0]['c']['classes'], 'rows': cases[0]['rows'][:4]}})
 
@@ -145,19 +146,20 @@ def bigger(chk):
 def replay(chk, path):
     memoise_lut()
     rp = json.load(open(path))
+    dt, sh, sc = rp.get('pres', ['int16', 0, 1.0])
     if 'ps' in rp:
         ps = rp['ps']
-        t = np.array([[p[0]] for p in ps]).astype('int16')
+        t = ((np.array([[p[0]] for p in ps], dtype='float64') + sh) * sc).astype(dt)
         d = np.array([[p[1]] for p in ps]).astype('uint16')
         classes = rp['classes']
         e = [0, 0]
     else:
         c, rows = rp['case']['c'], rp['case']['rows']
-        t = np.array([r['t'] for r in rows]).astype('int16')
+        t = ((np.array([r['t'] for r in rows], dtype='float64') + sh) * sc).astype(dt)
         d = np.array([r['d'] for r in rows], dtype='uint16')
         classes = None if rp.get('auto_first_batch_max') is not None else c['classes']
         e = rp['entry']
-    got = run_obj(rp['cls'], rp['precision'], t, d, classes)
+    got = run_obj(rp['cls'], rp['precision'], t, d, classes, split=rp.get('split', False))
     g, exp = got[e[0], e[1]], rp.get('expected')
     print('result now:', g, 'expected:', exp)
     ok = (np.isnan(g) if exp is None else (not np.isnan(g) and abs(g - exp) <= 1e-3 * (1 + abs(exp))))
